@@ -204,5 +204,4 @@ def cases(ctx, scale=1.0):
     if ctx.thorough:
         for n in (65535, 65536):
             yield f'cells{n}-tree', wide_tree(n), None, 'flat'       # Lean: byte-level layer only (semantic layer by the Python twin)
-        yield 'cells70000-heap', heap_dag(rng, 70000, max_extra_bits=0), None, 'flat'
-        yield 'cells20000-heap', heap_dag(rng, 20000, max_extra_bits=0), None, True      # full Lean strict reader (5 SHA-256 per cell in the spec evaluation)
+        yield 'cells70000-heap', heap_dag(rng, 70000, max_extra_bits=0), None, True       # full Lean strict reader on one option set
